@@ -6,6 +6,7 @@ import (
 	"hash/crc32"
 	"sort"
 	"strings"
+	"syscall"
 	"testing"
 
 	"github.com/golang/snappy"
@@ -130,6 +131,67 @@ func c29origins() []c29origin {
 			_, err = v2.CompactFromIndex(p, v2.DefaultMaxBlockSize, name, idx, 6)
 			return err
 		}},
+		{"emptied-by-compaction-then-written-again-in-the-same-session", func(p, n string) error {
+			c := c29chron(p, n)
+			c.Write(c29treasures(3, "k"))
+			var del []treasure.Treasure
+			for i := 0; i < 3; i++ {
+				del = append(del, mkTreasure(fmt.Sprintf("k%d", i), "", true, true))
+			}
+			c.Write(del)
+			if fc, ok := c.(interface{ ForceCompaction() error }); ok {
+				if err := fc.ForceCompaction(); err != nil {
+					return err
+				}
+			}
+			c.Write(c29treasures(2, "again"))
+			return c.Close()
+		}},
+		{"emptied-by-compaction-then-written-again-in-a-new-session", func(p, n string) error {
+			c := c29chron(p, n)
+			c.Write(c29treasures(3, "k"))
+			var del []treasure.Treasure
+			for i := 0; i < 3; i++ {
+				del = append(del, mkTreasure(fmt.Sprintf("k%d", i), "", true, true))
+			}
+			c.Write(del)
+			if err := c.Close(); err != nil {
+				return err
+			}
+			if _, err := v2.NewCompactor(p, v2.DefaultMaxBlockSize, 0).Compact(); err != nil {
+				return err
+			}
+			c = c29chron(p, n)
+			c.Write(c29treasures(2, "again"))
+			return c.Close()
+		}},
+		{"process-died-before-the-first-block-then-written", func(p, n string) error {
+			vos.MkdirAll(p[:strings.LastIndex(p, "/")], 0755)
+			if _, err := v2.NewFileWriterWithName(p, v2.DefaultMaxBlockSize, n); err != nil { // header + name on disk, never closed
+				return err
+			}
+			c := c29chron(p, n)
+			c.Write(c29treasures(2, "late"))
+			return c.Close()
+		}},
+		{"first-block-write-failed-then-written", func(p, n string) error {
+			c := c29chron(p, n)
+			fired := false
+			vos.Fault = func(seq int, op *vos.Op) (error, int) {
+				if !fired && op.Kind == vos.OpWrite && op.Off > 0 && strings.HasSuffix(op.Path, ".hyd") {
+					fired = true
+					return syscall.ENOSPC, len(op.Data) / 2
+				}
+				return nil, -1
+			}
+			c.Write(c29treasures(2, "lost"))
+			if cs, ok := c.(interface{ Sync() error }); ok {
+				cs.Sync()
+			}
+			vos.Fault = nil
+			c.Write(c29treasures(2, "late"))
+			return c.Close()
+		}},
 		{"hand-built-v2-metadata-first", func(p, n string) error { return handBuiltV2(p, n, 0) }},
 		{"hand-built-v2-metadata-last", func(p, n string) error { return handBuiltV2(p, n, 3) }},
 		{"v2-then-compacted (upgrade to v3)", func(p, n string) error {
@@ -164,7 +226,7 @@ func TestC29(t *testing.T) {
 		on = append(on, o.name)
 	}
 	r.Extra["origins"] = on
-	r.Rule = fmt.Sprintf("%d name shapes (plain, UTF-8, a 255-byte part, names of 65535 and 65536 bytes, a name with a space%s) x %d file origins written by the real engine on the in-memory file system (fresh V3; V3 appended over three sessions; compacted through ForceCompaction, Compactor.Compact and CompactFromIndex; hand-built V2 files with the name in an OpMetadata entry first / last; V2 upgraded by compaction; V2 appended by the engine); oracle 1: ReadSwampName(file) = the name the writer was given, and the file still loads. Then a data directory holding EVERY subset of up to three of the files (distinct names) plus decoys (a leftover .compact temp, a non-.hyd file, a legacy V1 folder, a zero-byte .hyd file, a V2 file without any name entry) is scanned by the real explorer under the controlled scheduler; oracle 2: the listing contains exactly the swamps present. Non-trivial = files whose name is not stored right after the header (V2 origins) or that went through compaction", len(names), map[bool]string{true: "", false: ", a four-part name, 100 two-byte characters"}[r.Quick()], len(origins))
+	r.Rule = fmt.Sprintf("%d name shapes (plain, UTF-8, a 255-byte part, names of 65535 and 65536 bytes, a name with a space%s) x %d file origins written by the real engine on the in-memory file system (fresh V3; V3 appended over three sessions; emptied by compaction and written again in the same / a new session; header written but the process died before the first block, then written; first block write failed (short write), then written; compacted through ForceCompaction, Compactor.Compact and CompactFromIndex; hand-built V2 files with the name in an OpMetadata entry first / last; V2 upgraded by compaction; V2 appended by the engine); oracle 1: ReadSwampName(file) = the name the writer was given, and the file still loads. Then a data directory holding EVERY subset of up to three of the files (distinct names) plus decoys (a leftover .compact temp, a non-.hyd file, a legacy V1 folder, a zero-byte .hyd file, a V2 file without any name entry) is scanned by the real explorer under the controlled scheduler; oracle 2: the listing contains exactly the swamps present. Non-trivial = files whose name is not stored right after the header (V2 origins) or that went through compaction", len(names), map[bool]string{true: "", false: ", a four-part name, 100 two-byte characters"}[r.Quick()], len(origins))
 	r.Assumptions = []string{"a swamp whose name the engine rejects at write time (too long to encode) does not have to be discoverable, but the write must fail instead of producing a file with another name"}
 	var files []c29built
 	for ni, n := range names {
